@@ -727,15 +727,17 @@ Definition c05_ok (c : cfg) (ing : ingress) (p : pkt) (r : result) : bool :=
   | _ => true
   end.
 
-(** C07: the frame.  Record level: everything equal except CurrINF/CurrHF and the
-    SegID of the info fields current before / after the step. *)
+(** C07: the frame.  Record level: everything equal except CurrINF/CurrHF and the SegID of
+    the info field that is current on arrival and, at an effective cross-over, of the next one. *)
+Definition seg_changeable (p : pkt) (k : N) : bool :=
+  (k =? p_curr_inf p) || (eff_xover p && (k =? p_curr_inf p + 1)).
 Definition info_frame (changeable : bool) (a b : info) : bool :=
   Bool.eqb (i_peer a) (i_peer b) && Bool.eqb (i_consdir a) (i_consdir b) &&
   (i_ts a =? i_ts b) && (i_rsv a =? i_rsv b) && (changeable || (i_segid a =? i_segid b)).
-Fixpoint infos_frame (k : N) (ci ci' : N) (a b : list info) : bool :=
+Fixpoint infos_frame (ch : N -> bool) (k : N) (a b : list info) : bool :=
   match a, b with
   | [], [] => true
-  | x :: ta, y :: tb => info_frame ((k =? ci) || (k =? ci')) x y && infos_frame (k + 1) ci ci' ta tb
+  | x :: ta, y :: tb => info_frame (ch k) x y && infos_frame ch (k + 1) ta tb
   | _, _ => false
   end.
 Definition frame_ok (p out : pkt) : bool :=
@@ -746,19 +748,34 @@ Definition frame_ok (p out : pkt) : bool :=
   option_eqb N.eqb (p_l4_port p) (p_l4_port out) &&
   (p_seg0 p =? p_seg0 out) && (p_seg1 p =? p_seg1 out) && (p_seg2 p =? p_seg2 out) &&
   (p_meta_rsv p =? p_meta_rsv out) &&
-  infos_frame 0 (p_curr_inf p) (p_curr_inf out) (p_infos p) (p_infos out) &&
+  infos_frame (seg_changeable p) 0 (p_infos p) (p_infos out) &&
   list_eqb hop_eqb (p_hops p) (p_hops out).
 
-(** byte offsets that may differ between the received and the forwarded packet *)
-Definition allowed_offsets (p out : pkt) : list N :=
-  [meta_off p;
-   inf_off p (p_curr_inf p) + 2; inf_off p (p_curr_inf p) + 3;
-   inf_off p (p_curr_inf out) + 2; inf_off p (p_curr_inf out) + 3].
+(** byte offsets that may differ between the received and the forwarded packet: the first
+    byte of the path meta header (CurrINF, CurrHF) and the two SegID bytes of the changeable
+    info fields *)
+Definition allowed_offsets (p : pkt) : list N :=
+  [meta_off p; inf_off p (p_curr_inf p) + 2; inf_off p (p_curr_inf p) + 3] ++
+  (if eff_xover p then [inf_off p (p_curr_inf p + 1) + 2; inf_off p (p_curr_inf p + 1) + 3] else []).
 Definition memN (x : N) (l : list N) : bool := existsb (N.eqb x) l.
 
-(** the pointer moved by one hop (two at an effective cross-over handled by the egress
-    router) and every SegID is the old one, possibly xor-ed with the MAC prefix of a hop the
-    router traversed *)
+(** byte offsets (by header geometry) of the path-header fields in which two records differ *)
+Fixpoint infos_diff (p : pkt) (k : N) (a b : list info) : list N :=
+  match a, b with
+  | x :: ta, y :: tb =>
+    (if i_segid x =? i_segid y then [] else [inf_off p k + 2; inf_off p k + 3]) ++
+    (if i_rsv x =? i_rsv y then [] else [inf_off p k; inf_off p k + 1]) ++
+    infos_diff p (k + 1) ta tb
+  | _, _ => []
+  end.
+Definition record_diff_offsets (p out : pkt) : list N :=
+  (if (p_curr_inf p =? p_curr_inf out) && (p_curr_hf p =? p_curr_hf out) then [] else [meta_off p]) ++
+  (if p_meta_rsv p =? p_meta_rsv out then [] else [meta_off p + 1]) ++
+  infos_diff p 0 (p_infos p) (p_infos out).
+
+(** the pointer moved by at most one hop (two at an effective cross-over handled by the
+    egress router), CurrINF follows it, and every SegID is the old one, possibly xor-ed with
+    the MAC prefix of a hop field the router traversed *)
 Definition segid_step_ok (p : pkt) (a b : info) : bool :=
   (i_segid a =? i_segid b) ||
   existsb (fun h => i_segid b =? N.lxor (i_segid a) (mac_prefix (h_mac h)))
@@ -770,9 +787,9 @@ Fixpoint segids_ok (p : pkt) (a b : list info) : bool :=
   | _, _ => true
   end.
 Definition exact_ok (p out : pkt) : bool :=
-  ((p_curr_hf out =? p_curr_hf p) || (p_curr_hf out =? p_curr_hf p + 1) ||
-   (p_curr_hf out =? p_curr_hf p + 2)) &&
-  (p_curr_inf out =? inf_index_for_hf p (p_curr_hf out)) &&
+  ((p_curr_hf out =? p_curr_hf p) && (p_curr_inf out =? p_curr_inf p) ||
+   ((p_curr_hf out =? p_curr_hf p + 1) || (p_curr_hf out =? p_curr_hf p + 2)) &&
+   (p_curr_inf out =? inf_index_for_hf p (p_curr_hf out))) &&
   segids_ok p (p_infos p) (p_infos out).
 
 (** reserved bits that the re-serialization of the path meta header / info field clears *)
@@ -783,7 +800,7 @@ Definition c07_ok (p : pkt) (r : result) (changed : list N) (inlen outlen : N) :
   match r with
   | Forward _ out _ =>
     frame_ok p out && exact_ok p out && (inlen =? outlen) &&
-    forallb (fun o => memN o (allowed_offsets p out)) changed
+    forallb (fun o => memN o (allowed_offsets p)) changed
   | _ => true
   end.
 
